@@ -258,6 +258,31 @@ func runC09R2(c *Ctx) {
 	// mirror (which lags the database inside the commit window that R1's mutex protects only for the issuers)
 	checkRowRewrites(c, "C09-R2")
 	checkMirrorStoresOnOwnBranch(c, "C09-R2")
+	checkNextIndexMirrorIsLoopVariable(c, "C09-R2")
+	// R1's critical section contains the callback only if the adapter hands the callback itself to bbolt (which runs
+	// commit handlers synchronously inside Commit): wrapped (e.g. `go f()`), Update returns and the mutex is released
+	// while the in-memory index is still the old one
+	if oc := p.Func(bdbPkg, "transaction", "OnCommit"); oc != nil {
+		okPass := false
+		for _, ci := range callsOf(oc) {
+			call, ok := ci.(*ssa.Call)
+			if !ok {
+				continue
+			}
+			g := call.Call.StaticCallee()
+			if g == nil || fnPkgPath(g) != bboltPath || g.Name() != "OnCommit" {
+				continue
+			}
+			args := call.Call.Args
+			if prm, ok := args[len(args)-1].(*ssa.Parameter); ok && paramIndex(oc, prm) == 1 {
+				okPass = true
+			}
+		}
+		c.Check("C09-R2", "adapter-passes-commit-callback-unchanged", oc.Pos(), okPass,
+			"walletdb's bdb adapter does not hand the OnCommit callback itself to bbolt (it wraps or defers it): the callback that advances the in-memory address index is no longer guaranteed to have run when walletdb.Update returns, so the address mutex is released with a stale index")
+	} else {
+		c.Unresolved("C09-R2", "bdb.transaction.OnCommit")
+	}
 }
 
 func isIndexMirror(field string) bool {
